@@ -78,17 +78,12 @@ theorem loop1_eq (l : List Bid) (m : Dec → Option (List Bid)) :
       simp [hq, hq']
 
 theorem loop2_eq (m : Dec → Option (List Bid)) (keys done : List Dec) :
-    BidsByPrice.loop2 m keys (done.length : Int) (done ++ List.replicate keys.length 0) =
-      Loop.done (((done ++ keys).length : Int), done ++ keys) := by
+    BidsByPrice.loop2 m keys done = Loop.done (done ++ keys) := by
   induction keys generalizing done with
   | nil => simp [BidsByPrice.loop2]
   | cons k rest ih =>
     simp only [BidsByPrice.loop2]
-    have h1 : Go.listSet (done ++ List.replicate (k :: rest).length 0) (done.length : Int) k =
-        (done ++ [k]) ++ List.replicate rest.length 0 := by
-      simp [Go.listSet, List.replicate_succ]
-    have h2 : (done.length : Int) + 1 = ((done ++ [k]).length : Int) := by simp
-    rw [h1, h2, ih]
+    rw [ih]
     simp
 
 theorem insertBy_perm (x : Dec) (l : List Dec) : (Go.insertBy gt x l).Perm (x :: l) := by
@@ -184,14 +179,12 @@ theorem bbp_eq (bids out : List Bid) (keys : List Dec) :
     Gen.BidsByPrice bids out keys = (Go.sortSlice gt keys, levelMap out) := by
   unfold Gen.BidsByPrice
   simp only [loop1_eq]
-  have h := loop2_eq (levelMap out) keys []
-  simp only [List.length_nil, List.nil_append, Int.natCast_zero] at h
   have hm : (fun q => if q ∈ out.map (·.price)
       then some (((fun _ => none : Dec → Option (List Bid)) q).getD [] ++
         out.filter (fun b => decide (b.price = q))) else (fun _ => none : Dec → Option (List Bid)) q) = levelMap out := by
     funext q
     simp [levelMap]
-  simp only [hm, Int.toNat_natCast, h]
+  simp only [hm, loop2_eq, List.nil_append]
 
 /-- the levels of `out` along `prices` -/
 def levels (prices : List Dec) (out : List Bid) : List Bid :=
